@@ -37,7 +37,6 @@ fn main() {
     vsched::quiet_panics();
     install_hooks();
     vsched::start_watchdog(60);
-    vsched::BUSY.store(true, std::sync::atomic::Ordering::Relaxed);
     match args.sub.as_str() {
         "mutex" => mutex::run(&args),
         "arcstr" => arcstr::run(&args),
